@@ -278,6 +278,11 @@ def eng_cli(pid, tier, wd, known, replay=None):
         hists.append([("replace", "garbage"), ("switch", 4), ("gen",), ("diff",), ("gen",), ("diff",)])
         hists.append([("switch", 1), ("gen",), ("switch", 3), ("gen",), ("diff",), ("switch", 4), ("gen",), ("diff",)])
         rep = {"stale": STALE % "h", "garbage": GARBAGE, "noncomp": NONCOMP % "h"}
+        cid = {}                     # content (sha) -> small id for the Coq terms
+
+        def cnum(b):
+            return cid.setdefault(sha(b), len(cid) + 1)
+        hterms, hmeta = [], []
         for hi, hist in enumerate(hists):
             root = scratch("hist")
             tg = ("-tags=dev",) if hi % 3 == 1 else ()      # every third history runs all its commands under -tags
@@ -319,10 +324,37 @@ def eng_cli(pid, tier, wd, known, replay=None):
                         viol.append(({"property": pid, "kind": "failing-input", "broken": "C18 oracle on the wire binary", "input": {"history": [list(o) for o in hist[:len(trace)]], "options": list(tg)},
                                       "impl": trace, "oracle": why, "seed": seed()}, True))
                         break
+                # the same history through Cli.hstep (vm_compute below)
+                def r_op(o):
+                    return {"switch": lambda: "(OSwitch %d)" % o[1], "gen": lambda: "OGen", "diff": lambda: "ODiff", "check": lambda: "OCheck",
+                            "delete": lambda: "ODelete", "replace": lambda: "(OReplace %d)" % cnum(rep[o[1]].encode())}[o[0]]()
+                contents = coq_list(["(%d, %s)" % (v, r_opt(cnum(refc[(v, tg)]) if refc[(v, tg)] is not None else None)) for v in VARIANTS])
+                opsl = coq_list([r_op(o) for o in hist[:len(trace)]])
+                obs = coq_list(["(%d, %s)" % (st["exit"], r_opt(cid.get(st["out"]) if st["out"] is not None else None) if st["out"] is None or st["out"] in cid else "(Some 0)") for st in trace])
+                hterms.append("(mkHCase %d %s 1 %s %s)" % (hi, contents, opsl, obs))
+                hmeta.append((hist[:len(trace)], list(tg), trace))
                 if hi == 0:
                     samples.append({"history": trace})
             finally:
                 shutil.rmtree(root, ignore_errors=True)
+        if hterms:
+            f = os.path.join(wd, "HCases.v")
+            with open(f, "w") as fh:
+                fh.write("From Coq Require Import List Arith Bool.\nFrom Wire Require Import Cli.\nImport ListNotations.\n")
+                fh.write("Definition cases : list hcase := [\n" + ";\n".join(hterms) + "\n].\n")
+                fh.write("Definition M := Eval vm_compute in hmismatches cases.\nPrint M.\n")
+            rc, out, err = coqc(f)
+            m = re.search(r"M\s*=\s*(\[.*?\])\s*:\s*list nat", out, re.S)
+            if rc != 0 or not m:
+                raise RuntimeError("coqc failed on HCases.v\n" + (out + err)[-2000:])
+            hm = [int(x) for x in re.findall(r"\d+", m.group(1))]
+            stats["history_mismatches"] = len(hm)
+            flagged = {json.dumps(v[0]["input"].get("history")) for v in viol if "history" in v[0].get("input", {})}
+            for hi in hm[:4]:
+                hist, tgs, trace = hmeta[hi]
+                if json.dumps([list(o) for o in hist]) not in flagged:
+                    viol.append(({"property": pid, "kind": "no-failing-input-found", "broken": "correspondence Cli.hstep vs the wire binary on a history",
+                                  "input": {"history": [list(o) for o in hist], "options": tgs}, "impl": trace, "seed": seed()}, False))
     # ---- check / show (C19)
     if pid == "C19":
         root = scratch("chk")
